@@ -248,8 +248,21 @@ def check_case(case):
         n_before = len(built.log)
         relied_on = [p for p, v in app.items() if v == POISON and p not in kwargs and
                      p not in M.positional_names(sig, len(args))]
+        via = call.get('via')
+        if via and shape['kind'] == 'function':
+          # the configurable is obtained through a selector string that carries a scope, while the
+          # stack is active: it runs under exactly that scope, wherever it was obtained or called
+          act = via.split('/')
+          app = M.overlay(model, act)
+          verdict, exp = M.expected_call(sig, args, kwargs, app)
+          relied_on = [p for p, v in app.items() if v == POISON and p not in kwargs and
+                       p not in M.positional_names(sig, len(args))]
+          scoped_fn = gin.get_configurable(f'{via}/{sel_full}')
+          labels.add('call-through-scoped-selector')
+        else:
+          scoped_fn = None
         try:
-          rec = _probe_call(built, args, kwargs)
+          rec = scoped_fn(*args, **kwargs) if scoped_fn else _probe_call(built, args, kwargs)
           raised = None
         except TypeError as e:
           raised = e
@@ -399,6 +412,8 @@ def strategy(draw):
     if keys and draw(st.integers(0, 3)) == 0:
       call['odd'] = {k: draw(st.sampled_from(['any', 'arr']))
                      for k in draw(st.lists(st.sampled_from(keys), unique=True, min_size=1, max_size=3))}
+    if shape['kind'] == 'function' and draw(st.integers(0, 4)) == 0:
+      call['via'] = draw(st.sampled_from(['s', 't', 's/t', 'u/s', 'zz']))
     if j > 0 and draw(st.integers(0, 2)) == 0:
       call['rebind'] = [draw(st.integers(0, 11)), j, draw(st.booleans())]
     calls.append(call)
